@@ -52,7 +52,9 @@ rule("TopStmtBody", ["Assign", "Assign", "CallStmt", "CallStmt", "IfStmt", "Case
                      "WithStmt", "RaiseStmt", "InheritedStmt", "Compound", "'exit'", "'goto' Ident"], ["Assign", "CallStmt"])
 # anonymous routines with parameter lists whose body STARTS with each kind of structured statement (start symbol of Gen_anon.cfg)
 rule("AnonTop", ["AnonTopStmt ';' AnonTop", "AnonTopStmt ';'", "AnonTopStmt ';' TopStmt ';'"], ["AnonTopStmt ';'"])
-rule("AnonTopStmt", ["@S Ident ':=' AnonRoutineP @.", "@S Ident '(' AnonRoutineP ')' @.", "@S Ident '(' Expr ',' AnonRoutineP ')' @.", "@S Designator '.' Ident '(' AnonRoutineP ',' Expr ')' @."])
+rule("AnonTopStmt", ["@S Ident ':=' AnonRoutineP @.", "@S Ident '(' AnonRoutineP ')' @.", "@S Ident '(' Expr ',' AnonRoutineP ')' @.", "@S Designator '.' Ident '(' AnonRoutineP ',' Expr ')' @.",
+                     # several anonymous routines in one statement (the later ones with local declarations)
+                     "@S Ident '(' AnonRoutine ',' AnonRoutineP ')' @.", "@S Ident '(' AnonRoutineP ',' AnonRoutineP ',' AnonRoutine ')' @."])
 rule("AnonRoutineP", ["'procedure' '(' Params ')' @A 'begin' @{ AnonFirst ';' StmtList @C 'end' @} @.",
                       "'function' '(' Params ')' ':' Type @A 'begin' @{ AnonFirst ';' StmtList @C 'end' @} @.",
                       "'procedure' '(' Params ')' AnonVarSection @A 'begin' @{ AnonFirst ';' StmtList @C 'end' @} @."])
